@@ -495,7 +495,7 @@ func c09Decl(c *Ctx) {
 
 	nS, nF, nP := 1100, 400, 1500
 	if c.Thorough {
-		nS, nF, nP = nS*20, nF*20, nP*20
+		nS, nF, nP = nS*8, nF*8, nP*8
 	}
 
 	// ================= struct declarations =================
@@ -799,7 +799,7 @@ func c09Decl(c *Ctx) {
 	}
 	nMut := 600
 	if c.Thorough {
-		nMut *= 20
+		nMut *= 8
 	}
 	for j := 0; j < nMut; j++ {
 		switch j % 3 {
